@@ -3439,8 +3439,10 @@ class Session(_SessionClassMethods, EventTarget):
                 self._deleted.pop(state, None)
             elif self._transaction:
                 # state is "detached" from being deleted, but still present
-                # in the transaction snapshot
-                self._transaction._deleted.pop(state, None)
+                # in the transaction snapshot; enclosing transactions list
+                # it as well when it was deleted before a savepoint began
+                for trans in self._transaction._iterate_self_and_parents():
+                    trans._deleted.pop(state, None)
         statelib.InstanceState._detach_states(
             states, self, to_transient=to_transient
         )
